@@ -737,6 +737,46 @@ def _run_hap(case, ctx):
                               exc=repr(exc)[:200] if exc else None, where="inside-" + where)
     if len(txs) + len(feats) > 0:
         _check_aggregates(ctx, hap, feats, txs, specs_f, specs_t)
+    _check_sub_haplotypes(ctx, hap)
+
+
+def _check_sub_haplotypes(ctx, hap):
+    """Sub-haplotypes taken out of a haplotype that has been USED (everything above ran on it) with query_by_guids - from the collection as built
+    and from a twin whose variants were listed in descending order: each is the haplotype of exactly the requested variants (alternative
+    sequence and alternative parent of the edit model for that subset), and the source still answers for all of them afterwards."""
+    from inscripta.biocantor.gene.variants import VariantInterval, VariantIntervalCollection
+
+    n = len(hap.edits_in)
+    if n < 2:
+        return
+    twin, e = ctx.call(lambda: VariantIntervalCollection(
+        [VariantInterval(s + hap.start, t + hap.start, alt, vt, parent_or_seq_chunk_parent=hap.parent) for s, t, alt, vt in reversed(hap.edits_in)],
+        parent_or_seq_chunk_parent=hap.parent))
+    if e is None:
+        _ = ctx.call(lambda: str(twin.alternative_genomic_sequence))
+    subsets = [list(range(1, n)), [n - 1, 0] if n > 2 else [1], [0]]
+    for label, src in (("as-built", hap.collection), ("listed-descending", twin if e is None else None)):
+        if src is None:
+            continue
+        kids, e1 = ctx.call(lambda: sorted(src.variant_intervals, key=lambda v: (v.start, v.end)))
+        by_pos = sorted(range(n), key=lambda j: (hap.edits_in[j][0], hap.edits_in[j][1]))
+        if e1 is not None or len(kids) != n:
+            continue
+        for idxs in subsets:
+            want = EM.Haplotype(hap.seq, [hap.edits_in[by_pos[j]] for j in idxs])
+            if not want.alt:
+                continue
+            sub, e2 = ctx.call(src.query_by_guids, [kids[j].guid for j in idxs])
+            got, e3 = ctx.call(lambda: str(sub.alternative_genomic_sequence)) if e2 is None and sub is not None else (None, e2)
+            ctx.check("alt.collection", e3 is None and got == want.alt, key=("sub-haplotype-by-guids", label, "chunk" if hap.chunk else "chrom"),
+                      edits=want.edits, requested=idxs, n_variants=n, got=got, want=want.alt, exc=repr(e3)[:200] if e3 else None)
+            if e3 is None:
+                pa, e4 = ctx.call(lambda: str(sub.parent_with_alternative_sequence.sequence))
+                ctx.check("alt.parent", e4 is None and pa == want.alt, key=("sub-haplotype-by-guids", label), edits=want.edits, got=pa, want=want.alt,
+                          exc=repr(e4)[:200] if e4 else None)
+        got, e5 = ctx.call(lambda: str(src.alternative_genomic_sequence))
+        ctx.check("alt.collection", e5 is None and got == hap.H.alt, key=("source-after-sub-haplotypes", label), edits=hap.H.edits, got=got, want=hap.H.alt,
+                  exc=repr(e5)[:200] if e5 else None)
 
 
 def _run_sweep(case, ctx):
